@@ -2,28 +2,55 @@
 """Regenerates MANIFEST.json from the table below (kept in one place so it is always valid)."""
 import json, os, subprocess
 HERE = os.path.dirname(os.path.dirname(os.path.abspath(__file__)))
+DRV = ("; driver model (Model/Fs + Model/Driver) tied to sb_patch by T8 (exit status, whole final tree, events) and T9 (strace trace of mutating operations)")
 CLAIMED = {
+    "C01": ("theorems C01_core, C01_bytes (apply_patch on every valid script = the new file, every hunk at its stated line, nothing rejected/asked/printed), "
+            "diffTrim_valid (a valid script exists for every file pair); ties T3, T4; oracles: output = B under random options; hunks parsed from GNU diff / emitter "
+            "text are a Valid script whose splice is B (Lean spec); driver level: tree A + diff(A,B) by GNU diff / git / emitter (create, delete, rename, chmod, -d, stdin) = tree B, exit 0", "5/C01"),
     "C02": ("theorems ws_spec, lineMatches_spec, locate_sound, locate_insertion, spliceAt_fromFile/sorted/complete, C02_apply over the Lean model "
-            "(all files, all well-formed hunk sequences, every -F, -l, -R, -N/-t/-f, every tty answer stream); model tied to the code by T1 "
-            "(exhaustive small scope), T2, T3; oracle on the implementation: output explained by increasing admissible placements", "5/C02"),
+            "(all files, all well-formed hunk sequences, every -F, -l, -R, -N/-t/-f, every tty answer stream); ties T1 (exhaustive small scope), T2, T3; "
+            "oracle on the implementation: output explained by increasing admissible placements", "5/C02"),
     "C03": ("theorems locate_complete, locate_least_fuzz, locate_exact, locate_insertion_exact, C03_step; ties T2, T3; oracle: brute-force "
             "enumeration of all admissible (position, fuzz) pairs per hunk on the implementation's answers", "5/C03"),
-    "C04": ("theorems apply_total, apply_partition, rejected_are_shifted (apply_patch level); tie T3; oracles: no exception for well-formed "
-            "patches, failure count = hunks not applied, reject bytes parsed by an independent strict parser hold exactly those hunks, output "
-            "explained by exactly the hunks reported applied. Driver-level clauses (exit status, reject file on disk) are added by the driver tie when built", "5/C04"),
-    "C01": ("theorems C01_core, C01_bytes (apply_patch on every valid script = the new file, every hunk at its stated line, nothing rejected/asked/printed), "
-            "diffTrim_valid (a valid script exists for every file pair); ties T3, T4; oracles: output = B for generated pairs under random options; hunks parsed "
-            "from GNU diff / emitter text are a Valid script whose splice is B (Lean spec). Driver-level clauses are added by the driver tie when built", "5/C01"),
+    "C04": ("theorems apply_total, apply_partition, rejected_are_shifted (apply_patch), exit_range, exit_truth (driver model: status 2 iff an exception reached main, "
+            "1 iff a bad event was printed, 0 otherwise); ties T3, T8; oracles: no exception for well-formed patches, failure count = hunks not applied, reject "
+            "bytes parsed by an independent strict parser, exit status vs verdicts on rich driver scenarios, reject file exists iff announced, full-device reject file" + DRV, "5/C04"),
+    "C05": ("theorems reverse_involutive, reversePatch_involutive, reverse_sides, reversePatch_operation, reverse_valid, C05_core, C05_roundtrip; tie T3; driver "
+            "level: tree B + diff(A,B) with -R = tree A for GNU/git/emitter diffs incl. create/delete/rename", "5/C05"),
+    "C06": ("theorems C06_N, C06_t, C06_f over all two-step histories excluding the ambiguous case; tie T3; driver level: apply then re-apply with -N/-t/-f", "5/C06"),
+    "C07": ("theorems (what the model carries): numbers read from a patch are within [0, 2^61-1] (consumeLineNumber/unified/normal/context ranges), guess/offset arithmetic "
+            "stays in int64, offErr_after_apply, offNew_step, no_out_of_range, exit_status; ties T2-T7 on the ASan+UBSan build with extreme numbers; sanitised sb_patch on "
+            "grammar-aware and blind mutations + an overflow probe corpus. Heap misuse inside std:: is searched for, not proved absent", "5/C07"),
+    "C08": ("theorems parseAll_terminates (the section loop never runs out of its fuel: every pass consumes a line or ends), probes_bounded (<= (hunk lines+1)(file lines+1), "
+            "independent of stated numbers), candidates_bounded, header/skipLines/getLine progress; all model functions total (Lean termination checker); ties T2, T4; sb_patch "
+            "under time limits with numbers up to 2^63-1, hunk-less and repeated git headers", "5/C08"),
+    "C09": ("theorems abort_keeps_state, section_atomic (a section abandoned for its text has only touched temporaries/chmod), writeFile_trace, finalize_removals_last; "
+            "ties T8, T9; oracles: syntax error at a random line of multi-file streams -> every file original or completely patched, nothing lost; SIGKILL before every "
+            "traced system call (strace injection) for rename/backup scenarios" + DRV, "5/C09"),
+    "C10": ("theorems fault_is_fatal (a failed operation always ends in status 2: nothing catches or ignores it), fault_not_reached, fault_prefix over the driver model with a "
+            "fault schedule; T10: every I/O system call after start-up of 16 scenarios failed once (EIO/ENOSPC/EACCES, strace injection): exit 2 + diagnostic or identical to the "
+            "fault-free run" + DRV, "5/C10"),
+    "C11": ("theorems inert_step(_git)_partial, headerLoop_filler_partial, filler_only_unknown, parseAll_trailing_filler (inert text is skipped by the header scan); tie T4; "
+            "oracles: parse(S1..Sn) = parse(S1)++..++parse(Sn) with and without filler, auto-detect = explicit format; driver: combined run = separate runs, stdin = -i", "5/C11"),
     "C12": ("theorems strip_spec, strip_negative, basename_spec, stripSpec_add/components/too_few, quote_roundtrip (all byte strings), file_line_plain/quoted, "
-            "devnull_never_stripped; tie T6 exhaustive small scope on the sanitised build; oracles: independent -pN, decode(quote(name)) = name", "5/C12"),
+            "devnull_never_stripped; tie T6 exhaustive small scope on the sanitised build; driver: first existing of old/new/Index for all existence patterns and -p, /dev/null never opened", "5/C12"),
     "C13": ("theorems unified_roundtrip, context_roundtrip (parse(write(hunks)) denotes the same changes, stream left at what follows), number/range round "
             "trips, reject_format_choice, reject_bytes_layout; ties T5 (exhaustive interleavings), T4 read-back, T3; oracles: independent strict readers, "
             "read-back by the implementation, shift by net growth, format choice", "5/C13"),
-    "C19": ("theorems over any well-formed option table (short attached/separate, long =/separate, short=long, unambiguous prefix, ambiguous prefix rejected, "
-            "bundle, --, operand position, rejections) + table_wf/table_handled by decide over the table REGENERATED from src/options.cpp on every run; tie T7 "
-            "exhaustive over options x spellings x prefixes", "5/C19"),
     "C14": ("theorems read_write_id, render_lf, render_crlf, render_keep, final_newline, splitLines_* invariants, hunkOutput_sources, "
             "spliceAt_sources; ties: reader (bytes->lines), T3 in all four modes; oracles: per-line terminator class and final-newline rule", "5/C14"),
+    "C15": ("theorem C15_pure_partial (with --dry-run the only operations are creation+unlink of anonymous temporaries and the tree is unchanged, also on abort; hypothesis: no "
+            "deferred work pending in the initial state), tmp_unlinked_at_once; ties T8, T9; oracles: tree incl. mtimes untouched, exit and verdicts equal to the real run, root and non-root; "
+            "strace trace of the dry run contains only temporaries" + DRV, "5/C15"),
+    "C16": ("theorem C16_paths (every mutating operation is on a target, its reject/backup name, a directory leading to them, or an anonymous temporary); ties T8, T9; oracles: "
+            "bystander files untouched incl. mtime, strace paths within the allowed set, temp dir empty" + DRV, "5/C16"),
+    "C17": ("theorems readonly_fail_untouched, writable_untouched, callback_mode, refuse_touches_only_rejects, refuse_dry; tie T8; oracles: sampled 9-bit modes x options x "
+            "root/non-root, git mode headers, rename/copy keep the source mode, directory/FIFO/Prereq refusals" + DRV, "5/C17"),
+    "C18": ("theorems backupName_spec, makeBackupFor_existing/absent/again; tie T8; oracles: decision table of the statement over all option combinations, content = bytes "
+            "before the run, several sections incl. create/delete histories, cancelling offsets, pre-existing backups" + DRV, "5/C18"),
+    "C19": ("theorems over any well-formed option table (short attached/separate, long =/separate, short=long, unambiguous prefix, ambiguous prefix rejected, "
+            "bundle, --, operand position, rejections) + table_wf/table_handled by decide over the table REGENERATED from src/options.cpp on every run; tie T7 "
+            "exhaustive over options x spellings x prefixes; driver: bad command lines exit 2 with the tree untouched", "5/C19"),
     "C20": ("theorem C20_merge (cppEval of the -D output = new file when defined, = original when not; balanced; nothing rejected) for every valid "
             "script with terminated, directive-free lines and grouped hunks; tie T3 with -D; oracle: independent Python preprocessor on the output bytes", "5/C20"),
 }
